@@ -30,6 +30,8 @@ CONFIGS = {
                        "-DPP_METHD=LAZYR;OATEP"], "cflags": "-O2"},                                                            # BLS48: fp48
     "p569": {"cmake": ["-DFP_PRIME=569", "-DBN_PRECI=3072", "-DFPX_METHD=INTEG;INTEG;LAZYR", "-DPP_METHD=LAZYR;OATEP"],
              "cflags": "-O2"},                                                                                                  # SG54: fp54
+    # C08: dynamic allocation with the sanitizers (allocation-failure enumeration, harness/ops_af.c)
+    "dyn-san": {"cmake": ["-DALLOC=DYNAMIC"], "cflags": SAN},
     "cov": {"cmake": [], "cflags": "-O1 -g -finstrument-functions"},
     "mt": {"cmake": ["-DMULTI=PTHREAD"], "cflags": "-O2"},
     # C06: the RSA padding is a compile-time choice (base = PKCS2/OAEP with CRT); the plain (non-CRT) private-key paths
